@@ -64,7 +64,8 @@ THEOREMS = ["Region.col_eq_iff", "Region.row_eq_iff", "Region.col_eq_floor", "Re
             "Region.window_inBox", "Region.masked_region_restricts", "Region.masked_region_old_index",
             "Region.masked_region_same_cell", "Region.masked_region_outside_iff", "Region.refinement_partition",
             "Region.regionEq_iff", "Region.rebuilt_from_origins_dh_mask", "Region.dict_roundtrip_same_partition",
-            "Region.eq_same_partition", "Region.filter_spatial_events", "Region.filter_spatial_no_region",
+            "Region.eq_same_partition", "Region.filter_spatial_events", "Region.filter_spatial_argument_wins",
+            "Region.filter_spatial_depends_only_on", "Region.filter_spatial_no_region",
             "Region.filter_spatial_idem", "Region.filter_spatial_stats", "Region.filter_then_lookup_total"]
 TRUSTED = ["Lean 4.33 kernel", "axioms: propext, Classical.choice, Quot.sound at most",
            "the float formula of csep.utils.calc.bin1d_vec agrees with the exact lookup outside the round-off band "
@@ -96,12 +97,19 @@ RULE = ("lattices: spacing from {0.05,0.1,0.25,0.5,1,2} or a random 1-3 digit de
         "Derived regions and sessions per region (harness/c01_ops.py): masked_region with a convex polygon (rectangle / cut corner) judged on its own "
         "edges and against the old region's partition; get_cartesian of float / int / list data vectors; == against rebuilt, reversed, shifted and "
         "shortened regions; increase_grid_resolution for factors 1, 2, 4, 8 and rejected 0, 3, 6 with the refined region's parent cells; grid_spacing; "
-        "two filter_spatial sessions of 2-5 calls on one catalog object over region argument a / b / none x update_stats x in_place x bound region x compute_stats")
+        "two filter_spatial sessions of 2-5 calls on one catalog object over region argument a / b / none x update_stats x in_place x bound region x compute_stats; "
+        "one session of 4-9 interleaved calls on 2-5 catalogs SHARING three region objects (a, b = other mask, c = sub-lattice with its own bounding box): filters, "
+        "counts, index lists, region reads, to_dict edited by the caller, masked_region, with every catalog recomputed from scratch and every region snapshotted after each "
+        "step; +inf / -inf / NaN coordinates; catalogs of more than 2^16 events with more than 65535 in one cell; one lattice of more than 2^16 cells; the region "
+        "factories' dh_scale / use_midpoint / magnitudes / name arguments and the constructors' name / magnitudes / vertex tolerance arguments")
 
 EPS = Fraction(1, 2 ** 52)
 TINY = Fraction(1, 2 ** 1022)  # gradual underflow of the quotient in bin1d_vec
 D4 = "single-row-or-column-region:point-beyond-upper-side"
 SHIPPED = ["nz", "nzc", "itc", "carelmc", "global1", "global05", "it", "carelm"]
+# the rarely used arguments of the region factories: dh_scale (through increase_grid_resolution), use_midpoint=False, magnitudes=, name=
+SHIPPED_VARIANTS = ["nz_s2", "nz_nomid", "nzc_args", "itc_s2", "global2_args"]
+VARIANT_MAGS = [4.95, 5.95, 6.95]
 
 
 # ----------------------------------------------------------------------------------------------- regions
@@ -110,7 +118,12 @@ def _shipped(name):
     f = dict(nz=regions.nz_csep_region, nzc=regions.nz_csep_collection_region,
              itc=regions.italy_csep_collection_region, carelmc=regions.california_relm_collection_region,
              it=regions.italy_csep_region, carelm=regions.california_relm_region,
-             global1=lambda: regions.global_region(dh=1), global05=lambda: regions.global_region(dh=0.5))[name]
+             global1=lambda: regions.global_region(dh=1), global05=lambda: regions.global_region(dh=0.5),
+             nz_s2=lambda: regions.nz_csep_region(dh_scale=2),
+             nz_nomid=lambda: regions.nz_csep_region(use_midpoint=False),
+             nzc_args=lambda: regions.nz_csep_collection_region(magnitudes=numpy.array(VARIANT_MAGS), name="variant"),
+             itc_s2=lambda: regions.italy_csep_collection_region(dh_scale=2, magnitudes=VARIANT_MAGS),
+             global2_args=lambda: regions.global_region(dh=2, name="variant", magnitudes=numpy.array(VARIANT_MAGS)))[name]
     return f()
 
 
@@ -150,14 +163,20 @@ def build_region(spec):
     if spec.get("dh_int") and dhf == int(dhf):
         dhf = int(dhf)
     mask = spec.get("mask")
+    kw = {}
+    if spec.get("kwargs"):      # the rarely used constructor arguments name= / magnitudes=
+        kw = dict(name="named-region", magnitudes=numpy.array(VARIANT_MAGS))
     if spec.get("ctor") == "polygons" or mask is not None:
-        polys = [Polygon(b) for b in compute_vertices(origins, dhf)]
-        region = CartesianGrid2D(polys, dhf, mask=None if mask is None else list(mask))
+        vt = spec.get("vtol")   # compute_vertices(..., tol=): the overlap tolerance of the polygons
+        polys = [Polygon(b) for b in (compute_vertices(origins, dhf) if vt is None else compute_vertices(origins, dhf, tol=float(vt)))]
+        region = CartesianGrid2D(polys, dhf, mask=None if mask is None else list(mask), **kw)
     elif spec.get("ctor") == "from_origins_nodh":
         # spacing inferred by the library from the first two origins (adjacent cells), regions.py:745-753
-        region = CartesianGrid2D.from_origins(numpy.array(origins))
+        region = CartesianGrid2D.from_origins(numpy.array(origins), **kw)
     else:
-        region = CartesianGrid2D.from_origins(numpy.array(origins), dh=dhf)
+        region = CartesianGrid2D.from_origins(numpy.array(origins), dh=dhf, **kw)
+    if kw and (region.name != "named-region" or region.magnitudes is None or [float(v) for v in region.magnitudes] != VARIANT_MAGS):
+        raise ValueError(f"constructor arguments lost: name={region.name!r}, magnitudes={region.magnitudes!r}")
     imin = min(i for i, _ in spec["cells"])
     jmin = min(j for _, j in spec["cells"])
     cells = [(i - imin, j - jmin) for i, j in spec["cells"]]
@@ -441,6 +460,29 @@ def check_region(run, drv, pending, spec, pts=None, rng=None, budget=1500, array
             return
         run.oracle_failure(dict(region=spec, points=[]), f"constructor raised {type(e).__name__}: {e}")
         return
+    if spec["kind"] == "shipped" and spec["name"] in SHIPPED_VARIANTS:
+        nm = spec["name"]
+        probs = []
+        if nm.endswith("_args") or nm == "itc_s2":
+            if region.magnitudes is None or [float(v) for v in region.magnitudes] != VARIANT_MAGS:
+                probs.append(f"magnitudes={region.magnitudes!r} (given {VARIANT_MAGS})")
+        if nm.endswith("_args") and region.name != "variant":
+            probs.append(f"name={region.name!r} (given 'variant')")
+        if nm.endswith("_s2"):
+            base_n = len(_shipped(nm[:-3]).polygons)
+            if len(region.polygons) != 4 * base_n or abs(float(region.dh) - 0.05) > 1e-12:
+                probs.append(f"dh_scale=2: {len(region.polygons)} cells of dh={region.dh!r} from {base_n} cells of 0.1")
+        if nm == "nz_nomid":
+            ref = _shipped("nz")
+            d = numpy.asarray(region.origins(), dtype=float) - numpy.asarray(ref.origins(), dtype=float)
+            if d.shape != (len(ref.polygons), 2) or numpy.abs(d - 0.05).max() > 1e-9:
+                probs.append("use_midpoint=False: the origins are not the file's nodes (midpoint region shifted by dh/2)")
+        if nm == "global2_args" and (len(region.polygons) != 180 * 90 or float(region.dh) != 2.0):
+            probs.append(f"global_region(dh=2): {len(region.polygons)} cells, dh={region.dh!r}")
+        run.case(None, None)
+        run.count("shipped-variant:" + nm)
+        for pr in probs:
+            run.oracle_failure(dict(region=spec, points=[], what="factory arguments"), f"{nm}: {pr}")
     if spec["kind"] == "shipped":
         run.extra.setdefault("shipped_covered", [])
         if spec["name"] not in run.extra["shipped_covered"]:
@@ -1075,8 +1117,10 @@ def gen_lattice(rng, tier):
             rest.remove(c1)
             cells = [c0, c1] + rest
             ctor = "from_origins_nodh"
+    kwargs = rng.random() < 0.25
+    vtol = rng.choice(["0", "1e-10", "1e-13"]) if (ctor == "polygons" or mask is not None) and rng.random() < 0.3 else None
     return dict(kind="lattice", ax=str(ax), ay=str(ay), dh=str(dh), cells=[list(c) for c in cells], mask=mask,
-                ctor=ctor, dh_int=dh_int, origins=origins,
+                ctor=ctor, dh_int=dh_int, origins=origins, kwargs=kwargs, vtol=vtol,
                 meta=f"{kind}/{shape}/{hole}/{order}")
 
 
@@ -1099,11 +1143,16 @@ def run(run, rng, tier):
     drv, pending = Driver(), []
     run_corpus(run, drv, pending)
     nlat = 110 if tier == "quick" else 1600
+    run.extra["_big_quota"] = 2 if tier == "quick" else 25
     budget = 1400 if tier == "quick" else 2500
     for n in range(nlat):
         spec = _spec_cells_tuple(gen_lattice(rng, tier))
         run.count("lattice:" + spec["meta"].split("/")[1])
-        check_region(run, drv, pending, spec, rng=rng, budget=budget, tag=spec["meta"])
+        check_region(run, drv, pending, spec, rng=rng, budget=budget, tag=spec["meta"], build=spec.get("vtol") is None)
+        if spec.get("vtol") is not None:
+            run.count("constructor: compute_vertices(tol=" + spec["vtol"] + ")")
+        if spec.get("kwargs"):
+            run.count("constructor: name= / magnitudes=")
         if len(pending) >= 25:
             flush(run, drv, pending)
     flush(run, drv, pending)
@@ -1112,11 +1161,22 @@ def run(run, rng, tier):
         names = rng.sample(["nz", "nzc", "itc", "carelmc"], 2) + ["global1", "it", "carelm"]
     else:
         names = list(SHIPPED)
+    # the factories' rarely used arguments (one variant per quick run, all in thorough)
+    names += [rng.choice(SHIPPED_VARIANTS)] if tier == "quick" else list(SHIPPED_VARIANTS)
+    # a lattice with more than 2^16 cells (257 x 256 = 65792, not a multiple of 2^16): partition by oracle and exact-layer model
+    bx, by = rng.choice([(257, 256), (256, 258), (131, 503)])
+    big_spec = dict(kind="lattice", ax=str(Decimal(rng.randint(-1500, 1000)).scaleb(-1)), ay=str(Decimal(rng.randint(-800, 500)).scaleb(-1)),
+                    dh="0.1", cells=[(i, j) for j in range(by) for i in range(bx) if (i * 7 + j * 13) % 97 != 5], mask=None,
+                    ctor="from_origins", dh_int=False, origins="decimal", meta=f"big/{bx}x{by}/sparse-holes/row")
+    run.count("lattice:more-than-65536-cells")
+    check_region(run, drv, pending, big_spec, rng=rng, budget=500, arrays=False, ncat=1, tag=big_spec["meta"], build=False, ops=False)
+    flush(run, drv, pending)
     for name in names:
         big = name.startswith("global")
+        fine = name.endswith("_s2") and tier == "quick"      # 4x the cells: in the quick tier partition + factory-argument oracles only
         check_region(run, drv, pending, dict(kind="shipped", name=name), rng=rng,
-                     budget=(600 if big else 2500) if tier == "quick" else (2500 if big else 8000),
-                     arrays=not big, ncat=2, tag="shipped:" + name)
+                     budget=(600 if (big or fine) else 2500) if tier == "quick" else (2500 if big else 8000),
+                     arrays=not (big or fine), ncat=2, tag="shipped:" + name, build=not fine, ops=not fine)
         flush(run, drv, pending)
     _finish_bits(run)
     run.assumptions.append("polygon k of a generated lattice is hashed by the library to the bounding-box position of its "
@@ -1124,6 +1184,8 @@ def run(run, rng, tier):
 
 
 def _finish_bits(run):
+    run.extra.pop("_big_done", None)
+    run.extra.pop("_big_quota", None)
     b = run.extra.pop("_bit", [0, 0, {}])
     run.extra["bitexact_agreement"] = f"{b[0]}/{b[1]}"
     run.extra["bitexact_differences"] = b[2]
@@ -1142,7 +1204,7 @@ def replay(run, payload):
     if str(case.get("what", "")).startswith("ops:"):
         # a derived-region / catalog-session case: the region with freshly generated points, the operation re-drawn from its seed
         only = dict(masked_region=["masked"], filter_spatial=["filter"], increase_grid_resolution=["incres"],
-                    grid_spacing=["incres"]).get(case["what"][4:], ["eq"])
+                    grid_spacing=["incres"], shared_session=["shared"], nonfinite=["nonfinite"], big_catalog=["big"]).get(case["what"][4:], ["eq"])
         check_region(run, drv, pending, spec, pts=None, rng=__import__("random").Random(case.get("ops_seed", 0)), arrays=arrays,
                      tag="replay", build=False, ops_seed=case.get("ops_seed", 0), ops_only=only)
     else:
